@@ -623,6 +623,18 @@ func (c *ConcCtx) registerDeadline(e *Exec, st *State, p Ptr, d *Term) {
 	ev.Val = d
 }
 
+// beyondHorizon: stated bound (//verif:horizon) - the modelled run is shorter than the horizon, so a context deadline
+// with a constant timeout of at least that long does not fire within it (same rule as for tickers and timers)
+func (c *ConcCtx) beyondHorizon(ev *Event) bool {
+	hz := c.e.cfg["horizon"]
+	if hz == "" || ev.Val == nil || !ev.Val.IsConst() {
+		return false
+	}
+	var h int64
+	fmt.Sscan(hz, &h)
+	return h > 0 && ev.Val.SVal() >= h
+}
+
 // ctxChain returns the ctx object ids of ctx and its cancellable ancestors
 func (c *ConcCtx) ctxChain(e *Exec, st *State, ctx Value) []int {
 	var out []int
@@ -1619,7 +1631,7 @@ func (c *ConcCtx) encodeCtx(e *Exec, byLoc map[string][]*Event, add func(*Term))
 			for _, ev := range evs {
 				if ev.Kind == "cancel" {
 					cancels[id] = append(cancels[id], ev)
-				} else if ev.Kind == "mkdeadline" {
+				} else if ev.Kind == "mkdeadline" && !c.beyondHorizon(ev) {
 					deadlines[id] = append(deadlines[id], ev)
 				}
 			}
@@ -1956,7 +1968,7 @@ func (c *ConcCtx) buildPrefix(e *Exec) {
 						if cv.Kind == "cancel" {
 							opts = append(opts, x(cv))
 						}
-						if cv.Kind == "mkdeadline" {
+						if cv.Kind == "mkdeadline" && !c.beyondHorizon(cv) {
 							opts = append(opts, x(cv)) // a deadline eventually fires
 						}
 					}
